@@ -1,0 +1,6 @@
+//go:build !verif
+
+package failsafe
+
+// verifPoint is a no-op unless the library is built with the verif tag (see hooks_on.go).
+func verifPoint(_ string, _ any) {}
